@@ -26,8 +26,9 @@ Scan(i, owner, bad) ==
 Fails ==
   (IF Scan(1, 0, {}) # {} THEN {"Mutex"} ELSE {})
   \cup (IF \E k \in 1..Len(T.calls) : T.calls[k].kind = "reply" /\ T.calls[k].gotv # T.calls[k].want THEN {"OwnReply"} ELSE {})
-  \cup (IF \E k \in 1..Len(T.calls) : T.calls[k].kind \notin {"reply", "connfail", "broadcast"} THEN {"NoLoss"} ELSE {})
+  \cup (IF \E k \in 1..Len(T.calls) : T.calls[k].kind \notin {"reply", "connfail", "broadcast", "badreq"} THEN {"NoLoss"} ELSE {})
   \cup (IF Cardinality({k \in 1..Len(T.calls) : T.calls[k].kind = "connfail"}) > T.connfail THEN {"NoLoss"} ELSE {})
+  \cup (IF Cardinality({k \in 1..Len(T.calls) : T.calls[k].kind = "badreq"}) > 1 THEN {"NoLoss"} ELSE {})
   \cup (IF Len(T.calls) # T.nthreads * T.k THEN {"NoLoss"} ELSE {})
   \cup (IF \E i \in 1..Len(T.ev) : T.ev[i].op = "deadlock" THEN {"NoDeadlock"} ELSE {})
   \cup (IF \E a, b \in 1..Len(T.frames) : a < b /\ T.frames[a] = T.frames[b] THEN {"NoDup"} ELSE {})
